@@ -70,8 +70,8 @@ def showResult (tag : Nat) : Status → String
   | .done .err => s!"{tag}:err"
   | _ => s!"{tag}:pending"
 
-def resultOf (s : State) (noPayload : List Nat) (tag : Nat) : String :=
-  match s.callList.find? (·.2.tag == tag) with
+def resultOf (calls : List (Nat × Call)) (noPayload : List Nat) (tag : Nat) : String :=
+  match calls.find? (·.2.tag == tag) with
   | some (_, c) =>
     match c.st with
     | .done (.resp _ _) => if noPayload.contains tag then s!"{tag}:ok:?" else showResult tag c.st
@@ -83,7 +83,7 @@ def handle (stream events tags noPayload impl : String) : String :=
   match (commaList stream).mapM parseFrame, (commaList events).mapM parseEvent, (commaList tags).mapM (·.toNat?) with
   | some fs, some es, some ts =>
     let model := match run fs es with
-      | some s => let l := ts.map (resultOf s op); if l.isEmpty then "-" else ",".intercalate l
+      | some s => let cl := s.callList; let l := ts.map (resultOf cl op); if l.isEmpty then "-" else ",".intercalate l
       | none => match firstRejected (init fs) es 0 with
         | some i => s!"reject@{i}:{(commaList events).getD i "?"}"
         | none => "reject"
